@@ -292,6 +292,45 @@ def familyVectorBounds (_nparent ntaxa : Nat) : Except String Unit := vectorProb
 def familyVectorBoundsPrerepair (nparent ntaxa : Nat) : Except String Unit :=
   vectorProblemBounds true true nparent ntaxa
 
+/-! ### the decision space handed to the optimiser by `problem()` -/
+
+/-- ndecn, the candidate list (subset encodings; empty for the vector encodings whose space is the box
+    `lower ≤ x ≤ upper`), and the two bound vectors -/
+structure Space where
+  ndecn : Nat
+  space : List Nat
+  lower : List Nat
+  upper : List Nat
+deriving DecidableEq, Repr
+
+/-- subset encodings (`SubsetSelectionProblem` / `SubsetMateSelectionProblem`):
+      decn_space = numpy.arange(nopt); lower = numpy.repeat(0, ndecn); upper = numpy.repeat(nopt-1, ndecn)
+    with `nopt = ntaxa` resp. `len(xmap)` and `ndecn` the number of slots the family fills -/
+def subsetSpace (nopt ndecn : Nat) : Space :=
+  ⟨ndecn, List.range nopt, List.replicate ndecn 0, List.replicate ndecn (nopt - 1)⟩
+
+/-- vector encodings (integer / binary / real): one variable per candidate,
+      lower = numpy.repeat(0, nopt); upper = numpy.repeat(ub, nopt); decn_space = numpy.stack([lower, upper]) -/
+def vectorSpace (nopt ub : Nat) : Space :=
+  ⟨nopt, [], List.replicate nopt 0, List.replicate nopt ub⟩
+
+/-- Spec of a usable decision space for `nopt` candidates: bounds of length `ndecn`, `lower ≤ upper`
+    entrywise; subset encodings list every candidate exactly once and nothing else; vector encodings have
+    one variable per candidate and a positive upper bound (so every candidate can be used) -/
+def specSpace (subset : Bool) (nopt : Nat) (s : Space) : Bool :=
+  s.lower.length == s.ndecn && s.upper.length == s.ndecn &&
+  (List.zipWith (fun l u => decide (l ≤ u)) s.lower s.upper).all id &&
+  (if subset then
+     (List.range nopt).all (fun i => s.space.count i == 1) && s.space.all (fun i => decide (i < nopt))
+   else s.ndecn == nopt && s.upper.all (fun u => decide (0 < u)))
+
+/-- Every admissible candidate cross `t` (parents as a multiset) is the map row of some member of the
+    decision space: nothing the population offers is withheld from the optimiser. -/
+def specCover (cands xmap : List (List Nat)) (space : List Nat) : Bool :=
+  cands.all (fun t => space.any (fun d => match xmap[d]? with
+    | some r => r.isPerm t
+    | none => false))
+
 section trunc
 variable {α : Type} [LE α] [DecidableLE α]
 
